@@ -2,6 +2,7 @@ import Driver.Util
 import Stgutg.Model.AperDec
 import Stgutg.Gen.NgapSchema
 import Stgutg.Spec.X691
+import Stgutg.Spec.Ts38413Leaf
 namespace Driver
 open Stgutg Stgutg.Aper
 
@@ -110,10 +111,13 @@ partial def inScope : Val → Bool
   | .slice l => l.length < 16384 && l.all inScope
   | _ => true
 
+/-- the schema the oracle encodes under: the regenerated one with the TS 38.413 constraints tabled by hand -/
+def specSchema : Env := Spec.Ts38413.patchSchema schema
+
 /-- spec column for an encode op: the X.691 encoding, `err` when the value is outside its constraints -/
 def specEnc (id : Nat) (p : Params) (v : Val) : String :=
   if !inScope v then "undef" else
-  match Spec.X691.encodePdu schema fuel (.struct id) p v with
+  match Spec.X691.encodePdu specSchema fuel (.struct id) p v with
   | some b => "ok " ++ toHex b
   | none => "err"
 
